@@ -333,12 +333,17 @@ def ref_prefix_crc(ref: Ref, n: int) -> int:
 
 
 # ---------------------------------------------------------------- where does input decode to nothing?
-def stream_profile(codec: str, enc: bytes) -> List[int]:
+def first_error_offset(codec: str, enc: bytes) -> int:
+    """Index of the input byte at which a streaming decoder fed byte by byte raises (-1: never)."""
+    return stream_profile(codec, enc, _want_error=True)  # type: ignore[return-value]
+
+
+def stream_profile(codec: str, enc: bytes, _want_error: bool = False) -> List[int]:
     """cum[i] = bytes a streaming decoder has emitted after the first i input bytes (fed one by one;
     members are chained).  Stops growing at the first decoding error."""
     cum = [0]
     if codec == "identity":
-        return list(range(len(enc) + 1))
+        return -1 if _want_error else list(range(len(enc) + 1))  # type: ignore[return-value]
     if codec in ("gzip", "deflate", "deflate-raw"):
         wbits = 31 if codec == "gzip" else (15 if (enc and enc[0] & 0x0F == 8) else -15)
         mk: Callable[[], Any] = lambda: zlib.decompressobj(wbits)
@@ -359,8 +364,10 @@ def stream_profile(codec: str, enc: bytes) -> List[int]:
                 n = len(feed(d, enc[i:i + 1]))
             except Exception:  # noqa: BLE001
                 dead = True
+                if _want_error:
+                    return i  # type: ignore[return-value]
         cum.append(cum[-1] + n)
-    return cum
+    return -1 if _want_error else cum  # type: ignore[return-value]
 
 
 def plateaus(cum: List[int], min_len: int = 1) -> List[Tuple[int, int]]:
